@@ -1,17 +1,237 @@
 (* C07 — membership changes are safe, ordered and identical on all replicas.
    Statements only: each theorem is closed by [exact <lemma>]; proofs live in
-   Proofs/Membership.v. Part 1 (this section of the file): the membership RULES
-   (internal/rsm/membership.go), for every address normalisation function [norm]
-   and every sequence of requests. The raft-side theorems are appended below
-   part 1 by their own work package. *)
+   Proofs/Membership.v.
+
+   Part 1 (below): the membership RULES (internal/rsm/membership.go) on the
+   model Model/Membership.v. Every theorem holds for every address
+   normalisation function [norm] (the code: trim white space + case fold), for
+   ordered config change on and off, for EVERY sequence [reqs] of requests
+   (decoded config change entry, log index) - valid, invalid, repeated,
+   concurrent - and from every membership [m] meeting the stated invariant (the
+   empty membership and every membership restored from a snapshot of a replica
+   that started empty meet all of them).
+     run norm ordered m reqs = (final membership, verdict per request)
+
+   Part 2 (appended below part 1 by the raft-side work package): one
+   unapplied config change in the leader's log, no campaign with an unapplied
+   change, C02/C03 across membership changes. *)
 From DB Require Import Base.Bytes Gen.GenC07 Model.Membership Proofs.Membership.
 Open Scope N_scope.
 
-(* ------------------------------------------------------------------ *)
+(* ================================================================== *)
 (* Part 1: membership rules                                             *)
+
+(* --- kinds ---------------------------------------------------------- *)
 
 (* no replica id is ever of two kinds (voting / non-voting / witness) *)
 Theorem kinds_disjoint : forall norm ordered reqs m,
   kinds_disjoint_inv m -> kinds_disjoint_inv (fst (run norm ordered m reqs)).
 Proof. exact kinds_disjoint_run. Qed.
 Print Assumptions kinds_disjoint.
+
+(* over any sequence of requests a replica that stays (or is again) a member
+   has the kind it had, or went from non-voting to voting *)
+Theorem only_promotion_changes_kind : forall norm ordered reqs m id k k',
+  removed_disjoint_inv m ->
+  kind_of m id = Some k -> kind_of (fst (run norm ordered m reqs)) id = Some k' ->
+  k = k' \/ (k = NonVoting /\ k' = Voting).
+Proof. exact kind_run. Qed.
+Print Assumptions only_promotion_changes_kind.
+
+(* ... and the one request that changes a kind is an applied AddNode for that
+   non-voting replica carrying (a spelling of) its own address *)
+Theorem kind_change_is_promotion : forall norm ordered m c i m' v id k k',
+  step norm ordered m (c, i) = (m', v) ->
+  kind_of m id = Some k -> kind_of m' id = Some k' -> k <> k' ->
+  v = VApplied /\ k = NonVoting /\ k' = Voting /\ id = cc_replica c /\ cc_type c = cc_add_node /\
+  exists oa, alookup id (m_nonvotings m) = Some oa /\ address_equal norm oa (cc_addr c) = true.
+Proof. exact kind_step. Qed.
+Print Assumptions kind_change_is_promotion.
+
+(* --- removed ids ---------------------------------------------------- *)
+
+(* removed ids are not members, stay removed for ever and are never members again *)
+Theorem removed_disjoint_and_permanent : forall norm ordered reqs m,
+  removed_disjoint_inv m ->
+  removed_disjoint_inv (fst (run norm ordered m reqs)) /\
+  forall id, rmem id (m_removed m) = true ->
+             rmem id (m_removed (fst (run norm ordered m reqs))) = true /\
+             kind_of (fst (run norm ordered m reqs)) id = None.
+Proof. exact removed_disjoint_and_permanent_proved. Qed.
+Print Assumptions removed_disjoint_and_permanent.
+
+(* every request to add (as any kind) a removed id is rejected, membership untouched *)
+Theorem removed_id_add_rejected : forall norm ordered m c i,
+  rmem (cc_replica c) (m_removed m) = true -> is_add_type (cc_type c) = true ->
+  step norm ordered m (c, i) = (m, VRejected).
+Proof. exact removed_id_add_rejected_proved. Qed.
+Print Assumptions removed_id_add_rejected.
+
+(* --- the last voting member ------------------------------------------ *)
+
+(* once there is a voting member there always is one (voters_inv: the voting
+   map has unique keys - true of every Go map - and is not empty) *)
+Theorem last_voter_not_removable : forall norm ordered reqs m,
+  voters_inv m -> voters_inv (fst (run norm ordered m reqs)).
+Proof. exact last_voter_not_removable_proved. Qed.
+Print Assumptions last_voter_not_removable.
+
+Theorem remove_last_voter_rejected : forall norm ordered m c i,
+  alen (m_addresses m) = 1 -> amem (cc_replica c) (m_addresses m) = true ->
+  cc_type c = cc_remove_node ->
+  step norm ordered m (c, i) = (m, VRejected).
+Proof. exact remove_last_voter_rejected_proved. Qed.
+Print Assumptions remove_last_voter_rejected.
+
+(* --- addresses ------------------------------------------------------- *)
+
+(* two different members never have addresses that compare equal *)
+Theorem address_unique : forall norm ordered reqs m,
+  address_unique_inv norm m -> address_unique_inv norm (fst (run norm ordered m reqs)).
+Proof. exact address_unique_run. Qed.
+Print Assumptions address_unique.
+
+(* a request to add a replica under an address another member uses is rejected *)
+Theorem add_used_address_rejected : forall norm ordered m c i id2 a2,
+  is_add_type (cc_type c) = true ->
+  In (id2, a2) (all_members m) -> id2 <> cc_replica c ->
+  address_equal norm a2 (cc_addr c) = true ->
+  address_unique_inv norm m ->
+  step norm ordered m (c, i) = (m, VRejected).
+Proof. exact add_used_address_rejected_proved. Qed.
+Print Assumptions add_used_address_rejected.
+
+(* a replica keeps its address (up to normalisation) for as long as it is a member *)
+Theorem member_address_stable : forall norm ordered reqs m id a a',
+  removed_disjoint_inv m ->
+  addr_of m id = Some a -> addr_of (fst (run norm ordered m reqs)) id = Some a' ->
+  address_equal norm a a' = true.
+Proof. exact addr_run. Qed.
+Print Assumptions member_address_stable.
+
+(* --- ConfigChangeId and ordered config change ------------------------ *)
+
+(* the membership's ConfigChangeId is the log index of the last applied change *)
+Theorem ccid_is_index_of_last_applied_change : forall norm ordered reqs m,
+  m_ccid (fst (run norm ordered m reqs)) =
+  last_applied (m_ccid m) reqs (snd (run norm ordered m reqs)).
+Proof. exact ccid_run. Qed.
+Print Assumptions ccid_is_index_of_last_applied_change.
+
+(* ordered config change: a request whose ConfigChangeID is not the current one is rejected *)
+Theorem ordered_stale_id_rejected : forall norm m c i,
+  cc_init c = false -> cc_ccid c <> m_ccid m ->
+  step norm true m (c, i) = (m, VRejected).
+Proof. exact ordered_stale_id_rejected_proved. Qed.
+Print Assumptions ordered_stale_id_rejected.
+
+(* ordered config change, concurrent requests: with log indexes increasing (as
+   they do in a log) no two applied requests carry the same ConfigChangeID, i.e.
+   of the requests built on one membership view at most one takes effect *)
+Theorem ordered_one_winner_per_ccid : forall norm reqs m lo,
+  m_ccid m <= lo -> idx_increasing lo reqs ->
+  NoDup (applied_ccids reqs (snd (run norm true m reqs))).
+Proof. exact ordered_one_winner_per_ccid_proved. Qed.
+Print Assumptions ordered_one_winner_per_ccid.
+
+(* --- same outcome everywhere ------------------------------------------ *)
+
+(* the verdicts and the final membership are a function of (start membership,
+   log): the model has no other input - no replica id, shard id, clock, map order *)
+Theorem outcome_is_function_of_log : forall norm ordered reqs m1 m2,
+  m1 = m2 -> run norm ordered m1 reqs = run norm ordered m2 reqs.
+Proof. exact outcome_deterministic. Qed.
+Print Assumptions outcome_is_function_of_log.
+
+(* a replica that took / installed a snapshot after [l1] (membership.get / set)
+   continues exactly like one that applied the whole log *)
+Theorem snapshot_cut_same_outcome : forall norm ordered l1 l2 m,
+  run norm ordered m (l1 ++ l2) =
+  let '(m1, v1) := run norm ordered m l1 in
+  if has_panic v1 then (m1, v1)
+  else let '(m2, v2) := run norm ordered (m_set (m_get m1)) l2 in (m2, v1 ++ v2).
+Proof. exact run_app. Qed.
+Print Assumptions snapshot_cut_same_outcome.
+
+(* a request that is not applied leaves the membership untouched *)
+Theorem rejected_request_changes_nothing : forall norm ordered m r m' v,
+  step norm ordered m r = (m', v) -> v <> VApplied -> m' = m.
+Proof. exact step_not_applied_same. Qed.
+Print Assumptions rejected_request_changes_nothing.
+
+(* the unique keys of the three Go maps are kept by the model's lists *)
+Theorem map_keys_stay_unique : forall norm ordered reqs m,
+  nodup_inv m -> nodup_inv (fst (run norm ordered m reqs)).
+Proof. exact nodup_run. Qed.
+Print Assumptions map_keys_stay_unique.
+
+(* --- panics ----------------------------------------------------------- *)
+
+(* handleConfigChange panics only in apply's default branch (a Type outside the
+   enum that passed the ordered-id check); the three "not suppose to reach here"
+   and "rejected for unknown reasons" are unreachable, whatever the membership *)
+Theorem panic_only_for_unknown_type : forall norm ordered m c i t,
+  handle norm ordered m c i = Panicked t ->
+  t = panic_unknown_type /\ is_up_to_date ordered m c = true /\
+  (cc_type c =? cc_add_node)%Z = false /\ (cc_type c =? cc_remove_node)%Z = false /\
+  (cc_type c =? cc_add_non_voting)%Z = false /\ (cc_type c =? cc_add_witness)%Z = false.
+Proof. exact handle_panics_only_unknown_type. Qed.
+Print Assumptions panic_only_for_unknown_type.
+
+Theorem no_panic_for_valid_types : forall norm ordered reqs m,
+  Forall (fun r : req => valid_type (cc_type (fst r))) reqs ->
+  ~ In VPanic (snd (run norm ordered m reqs)) /\
+  length (snd (run norm ordered m reqs)) = length reqs.
+Proof. exact run_no_panic. Qed.
+Print Assumptions no_panic_for_valid_types.
+
+(* --- tie G: the model's conjunction is the source's conjunction --------- *)
+
+(* [accepted] is the conjunction of the ten rules in the order and polarity
+   genmodel reads off `accepted := ...` in handleConfigChange (GenC07.v) *)
+Theorem accept_rules_match_source : forall norm,
+  map (fun r : bool * String.string * (bool -> membership -> cc -> bool) => fst r) (rule_table norm)
+  = accepted_conjuncts /\
+  forall ordered m c,
+    accepted norm ordered m c = forallb (eval_rule ordered m c) (rule_table norm) /\
+    rule_vector norm ordered m c = map (fun r => snd r ordered m c) (rule_table norm).
+Proof. exact (fun norm => conj (rule_table_matches_source norm) (accepted_is_rule_table norm)). Qed.
+Print Assumptions accept_rules_match_source.
+
+(* m.apply is called once, under `if accepted`, and the function returns `accepted`;
+   addressEqual is EqualFold of the two TrimSpace'd strings *)
+Theorem source_shape : apply_only_when_accepted = true /\ address_equal_is_equalfold_of_trimspace = true.
+Proof. exact source_shape_facts. Qed.
+Print Assumptions source_shape.
+
+(* --- non-vacuity -------------------------------------------------------- *)
+
+(* a concrete history from the empty membership (ordered on): bootstrap of two
+   voters, a non-voting member, a witness, a removal, a promotion under another
+   spelling of the address, then one request per reject rule *)
+Example sample_verdicts :
+  snd (run norm_ascii true empty_membership sample_reqs) =
+  [VApplied; VApplied; VApplied; VApplied; VApplied; VApplied;
+   VRejected; VRejected; VRejected; VRejected; VRejected].
+Proof. vm_compute. reflexivity. Qed.
+
+Example sample_state_is :
+  observe sample_state =
+  mkM 6 [(1, [104; 49]); (3, [32; 104; 51])] [2] [] [(4, [104; 52])]
+  /\ kind_of sample_state 3 = Some Voting /\ kind_of sample_state 2 = None
+  /\ applied_ccids sample_reqs (snd (run norm_ascii true empty_membership sample_reqs)) = [2; 3; 4; 5].
+Proof. vm_compute. repeat split; reflexivity. Qed.
+
+(* the hypotheses of the theorems above hold of that state (and of the empty membership) *)
+Example sample_state_meets_invariants :
+  kinds_disjoint_inv sample_state /\ removed_disjoint_inv sample_state /\
+  address_unique_inv norm_ascii sample_state /\ nodup_inv sample_state /\ voters_inv sample_state.
+Proof. exact sample_state_invariants. Qed.
+
+Example address_normalisation_witness :
+  address_equal_ascii [32; 72; 79; 83; 84; 49; 58; 57; 9] [104; 111; 115; 116; 49; 58; 57] = true /\
+  address_equal_ascii [104; 32; 49] [104; 49] = false.
+Proof. vm_compute. split; reflexivity. Qed.
+
+(* ================================================================== *)
+(* Part 2: raft side (appended by its own work package)                 *)
